@@ -140,3 +140,19 @@ pub assume_specification<D: hyper::body::Buf> [http_body_util::Full::<D>::new] (
 #[verifier::external_body] pub broadcast proof fn axiom_fmt_status() ensures #[trigger] vstd::std_specs::fmt::fmt_req_all::<http::StatusCode>() {}
 #[verifier::external_body] pub broadcast proof fn axiom_fmt_hyper_error() ensures #[trigger] vstd::std_specs::fmt::fmt_req_all::<hyper::Error>() {}
 pub broadcast group group_http_fmt { axiom_fmt_method, axiom_fmt_uri2, axiom_fmt_invalid_header_value, axiom_fmt_status, axiom_fmt_hyper_error }
+
+// ---- the status constants of the `http` crate (associated consts; documented numeric values). Present so that an edit that uses one
+//      of them outside the places the units redirect (E9) is decided on its merits instead of being UNDECIDED.
+pub assume_specification [http::StatusCode::OK] -> (r: http::StatusCode) ensures status_code(r) == 200;
+pub assume_specification [http::StatusCode::BAD_REQUEST] -> (r: http::StatusCode) ensures status_code(r) == 400;
+pub assume_specification [http::StatusCode::UNAUTHORIZED] -> (r: http::StatusCode) ensures status_code(r) == 401;
+pub assume_specification [http::StatusCode::FORBIDDEN] -> (r: http::StatusCode) ensures status_code(r) == 403;
+pub assume_specification [http::StatusCode::NOT_FOUND] -> (r: http::StatusCode) ensures status_code(r) == 404;
+pub assume_specification [http::StatusCode::PAYLOAD_TOO_LARGE] -> (r: http::StatusCode) ensures status_code(r) == 413;
+pub assume_specification [http::StatusCode::MISDIRECTED_REQUEST] -> (r: http::StatusCode) ensures status_code(r) == 421;
+pub assume_specification [http::StatusCode::INTERNAL_SERVER_ERROR] -> (r: http::StatusCode) ensures status_code(r) == 500;
+pub assume_specification [http::StatusCode::BAD_GATEWAY] -> (r: http::StatusCode) ensures status_code(r) == 502;
+pub assume_specification [http::StatusCode::SERVICE_UNAVAILABLE] -> (r: http::StatusCode) ensures status_code(r) == 503;
+// http::Uri::port_u16: the port written in the request target, if any (named, uninterpreted)
+pub uninterp spec fn uri_port_u16(u: http::Uri) -> Option<u16>;
+pub assume_specification [http::Uri::port_u16] (u: &http::Uri) -> (r: Option<u16>) ensures r == uri_port_u16(*u);
